@@ -1229,3 +1229,64 @@ Qed.
 
 Lemma forall_repeat (k : N) n : Forall (fun x => x = k) (repeat k n).
 Proof. induction n; cbn [repeat]; constructor; auto. Qed.
+
+(* ------------------------------------------------------------------ *)
+(** * An accepted trailer block is within its budget *)
+
+Definition tclean (f : tkind * N * N) : Prop := fst (fst f) = TPlain \/ fst (fst f) = TSpoof.
+
+Definition tinv (budget maxf : N) (done : list (tkind * N * N)) (a : tacc) : Prop :=
+  t_flag a = None ->
+  t_bytes a = fold_right (fun f s => tfield_size f + s) 0 done /\ t_bytes a <= budget /\
+  t_count a = N.of_nat (length done) /\ t_count a <= maxf /\ Forall tclean done /\ t_stored a <= t_count a.
+
+Lemma sum_app (l1 l2 : list (tkind * N * N)) :
+  fold_right (fun f s => tfield_size f + s) 0 (l1 ++ l2) =
+  fold_right (fun f s => tfield_size f + s) 0 l1 + fold_right (fun f s => tfield_size f + s) 0 l2.
+Proof. induction l1 as [|x r IH]; cbn [app fold_right]; [lia|rewrite IH; lia]. Qed.
+
+Lemma tstep_inv budget maxf lf done a f :
+  tinv budget maxf done a -> tinv budget maxf (done ++ [f]) (tstep budget maxf lf a f).
+Proof.
+  unfold tinv, tstep. intros I. destruct (t_flag a) eqn:Fl; [intros H; rewrite Fl in H; discriminate|].
+  destruct (I eq_refl) as (Hb & Hle & Hc & Hcm & Hcl & Hs).
+  destruct (budget <? t_bytes a + tfield_size f) eqn:B; cbn [t_flag]; [discriminate|]. apply N.ltb_ge in B.
+  destruct (maxf <? t_count a + 1) eqn:C; cbn [t_flag]; [discriminate|]. apply N.ltb_ge in C.
+  assert (Hsum : t_bytes a + tfield_size f = fold_right (fun f0 s => tfield_size f0 + s) 0 (done ++ [f])).
+  { rewrite sum_app. cbn [fold_right]. lia. }
+  assert (Hlen : t_count a + 1 = N.of_nat (length (done ++ [f]))).
+  { rewrite app_length. cbn [length]. lia. }
+  destruct f as [[k nl] vl]. destruct k; cbn [fst snd t_flag t_bytes t_count t_stored]; intros H; try discriminate.
+  - repeat split; try assumption; try lia.
+    + apply Forall_app. split; [assumption|]. constructor; [left; reflexivity|constructor].
+    + destruct lf; lia.
+  - repeat split; try assumption; try lia.
+    apply Forall_app. split; [assumption|]. constructor; [right; reflexivity|constructor].
+Qed.
+
+Lemma tfold_inv budget maxf lf fs : forall done a,
+  tinv budget maxf done a ->
+  tinv budget maxf (done ++ fs) (fold_left (tstep budget maxf lf) fs a).
+Proof.
+  induction fs as [|f r IH]; intros done a I; cbn [fold_left].
+  - rewrite app_nil_r. exact I.
+  - replace (done ++ f :: r) with ((done ++ [f]) ++ r) by (rewrite <- app_assoc; reflexivity).
+    apply IH. apply tstep_inv. exact I.
+Qed.
+
+Lemma trailer_accepted_bounded max_list maxf es lf fs n :
+  trailer_outcome max_list maxf es lf fs = TOk n ->
+  es = true /\
+  fold_right (fun f s => tfield_size f + s) 0 fs <= N.min max_list MAX_TRAILER_BYTES /\
+  N.of_nat (length fs) <= maxf /\ Forall tclean fs /\ n <= N.of_nat (length fs).
+Proof.
+  unfold trailer_outcome. destruct es; cbn [negb]; [|discriminate]. intros H.
+  pose proof (tfold_inv (trailer_budget max_list) maxf lf fs [] (mktacc 0 0 0 None)) as I.
+  cbn [app] in I.
+  assert (I0 : tinv (trailer_budget max_list) maxf [] (mktacc 0 0 0 None)).
+  { unfold tinv. cbn. intros _. repeat split; try lia. constructor. }
+  specialize (I I0). unfold tinv in I.
+  destruct (t_flag (fold_left (tstep (trailer_budget max_list) maxf lf) fs (mktacc 0 0 0 None))) eqn:Fl; [discriminate|].
+  inversion H; subst. destruct (I eq_refl) as (Hb & Hle & Hc & Hcm & Hcl & Hs).
+  unfold trailer_budget in *. split; [reflexivity|]. repeat split; try assumption; lia.
+Qed.
